@@ -8,6 +8,19 @@ COMMON_ASSUME = [
 ]
 
 PROPS = {
+    "C12": {
+        "units": [{"pkg": "./c12", "shards": 8, "shards_thorough": 16, "timeout": 900}],
+        "rule": ("rapid-generated allow=/deny= lists of 1-6 items (IPv4/IPv6 addresses and CIDR blocks incl. /0, /32, /128, 4-in-6, host bits set; 'ip:' in any case and spacing; malformed items: mask 33/129, "
+                 "missing octet, no/unknown type, empty, zone; allow and deny together), peers inside / at both edges of / just outside each block, IPv4, IPv6, 4-in-6 and zone-scoped, X-Forwarded-For chains of 0-4 "
+                 "elements (valid, garbage, peer repeated, padded). HTTP decisions through HTTPProxy.ServeHTTP with a hit-counting RoundTripper, TCP through AccessDeniedTCP on a stub conn and end to end through "
+                 "tcp.Server (tcp and tcp-dynamic handlers) from 127.0.0.1 and ::1 with a counting upstream listener; auth= routes with two htpasswd ({SHA}) schemes, unknown scheme names and right/wrong/unknown/"
+                 "malformed/absent credentials. Oracle: net/netip evaluation: exact (iff) for fully well-formed rules; with a malformed item only the must-deny direction (never wider than the well-formed blocks); "
+                 "403/401 imply zero upstream hits, 200 exactly one. Non-trivial = rule with >=2 items whose decision differs from that of some single item, or a rule with a malformed item; auth cases with a scheme."),
+        "technique": "rapid property tests, differential against a net/netip reference evaluation; upstream hit counting",
+        "level_text": "Generated rules, peers and X-Forwarded-For chains are decided by fabio (HTTP handler, TCP predicate, real TCP listeners) and by an independent net/netip evaluation; denied requests are checked to leave the upstream untouched; authentication outcomes are compared with the credential file. Exploration only.",
+        "level_note": "For rules containing a malformed item the statement only forbids widening, so only the must-deny direction is asserted there.",
+        "assumptions": COMMON_ASSUME,
+    },
     "C10": {
         "units": [{"pkg": "./c10", "shards": 8, "shards_thorough": 16, "timeout": 900}],
         "fuzz": [{"pkg": "./c10", "target": "FuzzC10ReadServerName", "time": "600s"}],
